@@ -28,6 +28,12 @@ TUS = ['cif.c', 'ciffile.c', 'container.c', 'loop.c', 'map.c', 'packet.c', 'pars
        'pktitr.c', 'utils.c', 'value.c']
 
 
+# dfcc does not track the locals / parameters of CBMC's own C-library models (memcmp, strcmp, ...) in the caller's write set:
+# their frame checks fail for every caller.  They concern CBMC's model code, not /repo, and are excluded everywhere (listed in evidence).
+LIB_ARTEFACTS = [(r'^(memcmp|strcmp|strncmp|strlen|memchr|strchr)\.assigns\.\d+ Check that \w+ is assignable',
+                  'frame check inside CBMC\'s built-in C library model (not /repo code); dfcc does not add the model\'s locals to the write set')]
+
+
 class Undecided(Exception):
     """Tool limit / extraction failure / timeout: exit 2, never a verdict."""
 
@@ -38,7 +44,7 @@ class Job:
                  timeout=600, mem_gb=8, min_obligations=1, loops=0, reach=(),
                  functions=None, note='', tiers=('quick', 'thorough'), replay=True,
                  object_bits=12, unwindset=(), no_loop_contracts=False, extra_cc=(),
-                 entry='harness', trusted=(), clauses=(), concretize=None):
+                 entry='harness', trusted=(), clauses=(), concretize=None, tool_artefacts=(), add_library=False, plain=False, text_ui=False):
         self.name = name
         self.harness = harness            # path relative to /verif/harness
         self.enforce = enforce            # function whose contract is enforced (None: plain harness assertions)
@@ -68,6 +74,12 @@ class Job:
         self.clauses = list(clauses)      # human-readable clauses this job decides
         # counterexample concretisation (search only, never the deciding step): defines/unwind for a bounded
         # re-run of the same harness WITHOUT loop contracts, so that a trace is a real execution
+        # (regex, reason): obligations that CBMC's dfcc instrumentation cannot discharge for a documented tool reason; they are
+        # reported separately in the evidence, are NOT counted as discharged, and never raise an alarm
+        self.tool_artefacts = list(tool_artefacts)
+        self.plain = plain                # bounded jobs without contracts: run cbmc on the goto-cc output directly (no dfcc instrumentation)
+        self.text_ui = text_ui            # parse cbmc's plain-text results (work-around for a --json-ui abort of cbmc 6.11 on some programs)
+        self.add_library = add_library    # link CBMC's C library models before dfcc so that they are instrumented too
         self.concretize = concretize      # None => {'MAXN': min(MAXN, 8)}, unwind MAXN+2; False => off
 
 
@@ -94,7 +106,7 @@ def ensure_generated_headers():
     return ['-I' + cfg, '-I' + os.path.join(cfg, 'src')]
 
 
-def make_scratch(tus, warn):
+def make_scratch(tus, warn, only_functions=None):
     """Annotated copies of the needed TUs in a fresh scratch dir."""
     d = tempfile.mkdtemp(prefix='cifv_')
     applied = {}
@@ -105,7 +117,7 @@ def make_scratch(tus, warn):
         text = open(src).read()
         recs = annotate.parse_loops_file(os.path.join(VERIF, 'contracts', tu.replace('.c', '.loops')))
         try:
-            out, n = annotate.annotate_text(text, recs, warn=warn)
+            out, n = annotate.annotate_text(text, recs, only_functions=only_functions, warn=warn)
         except annotate.ExtractionError as e:
             shutil.rmtree(d, ignore_errors=True)
             raise Undecided('extraction broken in %s: %s' % (tu, e))
@@ -151,6 +163,22 @@ def parse_cbmc_json(text):
             if 'cProverStatus' in e:
                 status = e['cProverStatus']
     return results, msgs, status
+
+
+def parse_cbmc_text(text):
+    """Fallback for jobs where `cbmc --json-ui` aborts (cbmc 6.11 internal error while printing): parse the plain-text result list."""
+    results, cur_file, cur_fn = [], '', ''
+    for ln in text.split('\n'):
+        m = re.match(r'^(\S+) function (\S+)$', ln.strip())
+        if m:
+            cur_file, cur_fn = m.group(1), m.group(2)
+            continue
+        m = re.match(r'^\[(.+?)\] (?:line (\d+) )?(.*): (SUCCESS|FAILURE|UNKNOWN|ERROR)$', ln.strip())
+        if m:
+            results.append({'property': m.group(1), 'description': m.group(3), 'status': m.group(4),
+                            'sourceLocation': {'file': cur_file, 'line': m.group(2) or '', 'function': cur_fn}})
+    status = 'success' if 'VERIFICATION SUCCESSFUL' in text else ('failure' if 'VERIFICATION FAILED' in text else None)
+    return results, [text[-3000:]], status
 
 
 def val_to_c(v):
@@ -211,6 +239,7 @@ class JobResult:
         self.obligations = 0
         self.discharged = 0
         self.failed = []            # list of dicts {property, description, location}
+        self.artefacts = []         # obligations excluded as documented tool artefacts
         self.reach_ok = []
         self.solver_s = 0.0
         self.wall_s = 0.0
@@ -224,6 +253,21 @@ class JobResult:
         self.log_tail = ''
 
 
+def is_local_of(scratch, tus, fn, ident):
+    """True iff `ident` is declared inside the body of function `fn` (a block-scope variable) in one of the scratch TUs."""
+    for tu in tus:
+        try:
+            text = open(os.path.join(scratch, tu)).read()
+            stripped = annotate.strip_comments_strings(text)
+            lo, hi = annotate.find_function(stripped, fn)
+        except Exception:
+            continue
+        body = stripped[lo:hi]
+        if re.search(r'[\w\*\)]\s+\**%s\s*(=|;|,|\[)' % re.escape(ident), body) and not re.search(r'\bstatic\b[^;]*\b%s\b' % re.escape(ident), body):
+            return True
+    return False
+
+
 def cc_base(inc_extra, scratch):
     return ['goto-cc', '-DHAVE_CONFIG_H', '-DCIF_API_VERIF', '-I' + scratch, '-I' + os.path.join(VERIF, 'contracts'),
             '-I' + os.path.join(VERIF, 'stubs'), '-I' + os.path.join(VERIF, 'harness')] + inc_extra + \
@@ -235,7 +279,7 @@ def run_job(job, tier, inc_extra, keep_dir=None):
     t0 = time.time()
     warns = []
     try:
-        scratch, applied = make_scratch(job.tus, warns.append)
+        scratch, applied = make_scratch(job.tus, warns.append, set(job.functions))
     except Undecided as e:
         res.status, res.reason = 'undecided', str(e)
         return res
@@ -252,6 +296,17 @@ def run_job(job, tier, inc_extra, keep_dir=None):
         if rc != 0:
             res.status, res.reason, res.log_tail = 'undecided', 'goto-cc failed', out[-3000:]
             return res
+        if job.plain:
+            b = a
+            gi = ['(no goto-instrument: plain bounded check)', a, b]
+            gi_out = ''
+        if job.add_library and not job.plain:
+            a2 = os.path.join(scratch, 'a2.gb')
+            rc, out, _ = run(['goto-instrument', '--add-library', a, a2], 300)
+            if rc != 0:
+                res.status, res.reason, res.log_tail = 'undecided', 'goto-instrument --add-library failed', out[-3000:]
+                return res
+            a = a2
         gi = ['goto-instrument', '--dfcc', job.entry]
         if job.enforce:
             gi += ['--enforce-contract-rec' if job.rec else '--enforce-contract', job.enforce]
@@ -260,12 +315,13 @@ def run_job(job, tier, inc_extra, keep_dir=None):
         if not job.no_loop_contracts:
             gi += ['--apply-loop-contracts']
         gi += [a, b]
-        rc, out, _ = run(gi, 600, mem_gb=job.mem_gb)
-        if rc != 0:
-            res.status, res.reason, res.log_tail = 'undecided', 'goto-instrument failed', out[-3000:]
-            return res
-        gi_out = out
-        cb = ['cbmc', b, '--json-ui'] + job.flags
+        if not job.plain:
+            rc, out, _ = run(gi, 600, mem_gb=job.mem_gb)
+            if rc != 0:
+                res.status, res.reason, res.log_tail = 'undecided', 'goto-instrument failed', out[-3000:]
+                return res
+            gi_out = out
+        cb = ['cbmc', b] + ([] if job.text_ui else ['--json-ui']) + job.flags
         if job.unwind is not None:
             cb += ['--unwind', str(job.unwind), '--unwinding-assertions']
         for u in job.unwindset:
@@ -281,7 +337,7 @@ def run_job(job, tier, inc_extra, keep_dir=None):
         if rc == -999:
             res.status, res.reason = 'undecided', 'cbmc timeout after %ds' % tmo
             return res
-        results, msgs, status = parse_cbmc_json(out)
+        results, msgs, status = parse_cbmc_text(out) if job.text_ui else parse_cbmc_json(out)
         if results is None or (not results and status is None):
             res.status, res.reason, res.log_tail = 'undecided', 'cbmc output unparsable / crashed (rc=%s)' % rc, out[-3000:]
             return res
@@ -298,6 +354,18 @@ def run_job(job, tier, inc_extra, keep_dir=None):
             desc = r.get('description', '')
             if desc.startswith('REACH '):
                 reach_seen[desc[6:]] = r['status']
+                continue
+            art = None
+            mloc = re.match(r'^(\w+)\.assigns\.\d+$', r['property'])
+            mid = re.match(r'^Check that (\w+) is assignable$', desc)
+            if mloc and mid and is_local_of(scratch, job.tus, mloc.group(1), mid.group(1)):
+                art = ('frame check on a block-scope variable of the function itself (%s in %s): writing a local can never violate the '
+                       'function\'s frame; dfcc loses track of locals across goto/continue/break edges that leave a loop' % (mid.group(1), mloc.group(1)))
+            for rx, why in list(job.tool_artefacts) + LIB_ARTEFACTS:
+                if re.search(rx, r['property'] + ' ' + desc):
+                    art = why
+            if art is not None:
+                res.artefacts.append({'property': r['property'], 'description': desc, 'status': r['status'], 'reason': art})
                 continue
             res.obligations += 1
             if '.loop_invariant_base' in r['property']:
@@ -318,19 +386,20 @@ def run_job(job, tier, inc_extra, keep_dir=None):
             sl = r.get('sourceLocation') or {}
             res.samples.append('%s: %s [%s:%s] %s' % (r['property'], r.get('description', '')[:120],
                                                      os.path.basename(sl.get('file', '')), sl.get('line', ''), r['status']))
-        # vacuity guards
-        for tag in job.reach:
-            st = reach_seen.get(tag)
-            if st != 'FAILURE':
-                res.status, res.reason = 'undecided', 'vacuity guard: REACH %s is %s (must be reachable)' % (tag, st)
+        # vacuity guards (only meaningful when nothing failed: a failure is reported as such)
+        if not [f for f in res.failed if f['status'] == 'FAILURE']:
+            for tag in job.reach:
+                st = reach_seen.get(tag)
+                if st != 'FAILURE':
+                    res.status, res.reason = 'undecided', 'vacuity guard: REACH %s is %s (must be reachable)' % (tag, st)
+                    return res
+                res.reach_ok.append(tag)
+            if res.obligations < job.min_obligations:
+                res.status, res.reason = 'undecided', 'vacuity guard: only %d obligations (< %d)' % (res.obligations, job.min_obligations)
                 return res
-            res.reach_ok.append(tag)
-        if res.obligations < job.min_obligations:
-            res.status, res.reason = 'undecided', 'vacuity guard: only %d obligations (< %d)' % (res.obligations, job.min_obligations)
-            return res
-        if res.loop_obligs < job.loops:
-            res.status, res.reason = 'undecided', 'vacuity guard: %d loop contracts visible, %d expected' % (res.loop_obligs, job.loops)
-            return res
+            if res.loop_obligs < job.loops:
+                res.status, res.reason = 'undecided', 'vacuity guard: %d loop contracts visible, %d expected' % (res.loop_obligs, job.loops)
+                return res
         if res.failed:
             res.status = 'failed'
             # get a trace for the most telling failure
@@ -344,7 +413,7 @@ def run_job(job, tier, inc_extra, keep_dir=None):
                 return 3
             first = sorted(res.failed, key=prio)[0]
             res.first_failed = first
-            if keep_dir:
+            if keep_dir and not os.environ.get('VERIF_NOTRACE'):
                 os.makedirs(keep_dir, exist_ok=True)
                 rc2, out2, _ = run(cb + ['--trace', '--property', first['property']], tmo, mem_gb=job.mem_gb * 2)
                 res.trace_json = out2
@@ -380,7 +449,7 @@ def concretize(job, tier, inc_extra):
     if unwind is None:
         unwind = int(defs.get('MAXN', 8)) + 2
     try:
-        scratch, _ = make_scratch(job.tus, lambda w: None)
+        scratch, _ = make_scratch(job.tus, lambda w: None, set(job.functions))
     except Undecided:
         return None, None, defs
     try:
@@ -466,13 +535,24 @@ def write_replay(prop, job, res, tier):
         body = ['#define VERIF_REPLAY 1']
         for k, v in defs.items():
             body.append('#define %s %s' % (k, v if v is not None else ''))
-        body.append('#define REPLAY_IN_INIT %s' % init)
         hp = os.path.join(VERIF, 'harness', job.harness)
+        htext = open(hp).read()
         if os.path.isabs(job.harness):
-            body.append(open(hp).read())   # generated harness: embed, the scratch file is removed after the run
+            body.append(htext)   # generated harness: embed, the scratch file is removed after the run
         else:
             body.append('#include "%s"' % hp)
-        body.append('int main(void) { %s(); return verif_replay_status(); }' % job.entry)
+        # type of the input struct: the GET_IN(tag) / NONDET_IN(struct tag) used inside the entry function
+        m = re.search(r'void\s+%s\s*\(void\)\s*\{(.*?)\n\}' % re.escape(job.entry), htext, re.S)
+        tag = None
+        if m:
+            mm = re.search(r'GET_IN\((\w+)\)|NONDET_IN\(struct (\w+)\)', m.group(1))
+            if mm:
+                tag = mm.group(1) or mm.group(2)
+        if tag:
+            body.append('static struct %s verif_replay_value = %s;' % (tag, init))
+            body.append('int main(void) { verif_replay_in = &verif_replay_value; %s(); return verif_replay_status(); }' % job.entry)
+        else:
+            body.append('int main(void) { %s(); return verif_replay_status(); }' % job.entry)
         src = '\n'.join(hdr) + '\n' + '\n'.join(body) + '\n'
         open(path, 'w').write(src)
         exe = path[:-2] + '.bin'
@@ -596,7 +676,8 @@ def run_property(prop, jobs, tier, level_text, undecided_clauses, static_facts=N
         path, confirmed, text = write_replay(prop, r.job, r, tier)
         r.replay_path, r.replay_confirmed = path, confirmed
         f0 = r.first_failed
-        log('   failed obligation %s: %s [%s:%s]' % (f0['property'], f0['description'], f0['file'], f0['line']))
+        for ff in sorted(r.failed, key=lambda f: 0 if f['status'] == 'FAILURE' else 1)[:12]:
+            log('   %s obligation %s: %s [%s:%s]' % ('failed' if ff['status'] == 'FAILURE' else 'undecided(' + ff['status'] + ')', ff['property'], ff['description'], ff['file'], ff['line']))
         if text:
             log('   ' + text.replace('\n', '\n   ')[:1500])
         print('VIOLATION property=%s replay=%s job=%s obligation=%s%s' % (
@@ -625,7 +706,7 @@ def run_property(prop, jobs, tier, level_text, undecided_clauses, static_facts=N
     for r in results:
         samples.extend(r.samples[:2])
     ev = {
-        'property_id': prop, 'tier': tier, 'seed': seed, 'level': 'proof',
+        'property_id': prop, 'tier': tier, 'seed': seed, 'level': ('proof' if obligations > 0 else 'other'),
         'coverage': {
             'obligations': obligations, 'discharged': discharged,
             'checker_cmd': 'bin/check %s --tier %s  (per job: goto-cc --function harness; goto-instrument --dfcc harness '
@@ -641,7 +722,8 @@ def run_property(prop, jobs, tier, level_text, undecided_clauses, static_facts=N
                       'reachability_canaries': r.reach_ok, 'backend': 'cbmc built-in SAT (MiniSat 2.2.1)',
                       'solver_s': round(r.solver_s, 2), 'wall_s': round(r.wall_s, 2), 'cmd': r.cmdline,
                       'defines': dict(r.job.defines, **(r.job.thorough_defines if tier == 'thorough' else {})),
-                      'clauses': r.job.clauses, 'note': r.job.note, 'reason': r.reason} for r in results],
+                      'clauses': r.job.clauses, 'note': r.job.note, 'reason': r.reason,
+                      'excluded_tool_artefacts': r.artefacts} for r in results],
             'bounded_jobs': [{'job': r.job.name, 'bound': r.job.bounded, 'obligations': r.obligations,
                               'discharged': r.discharged} for r in bnd],
             'bounded_obligations_not_counted': sum(r.obligations for r in bnd),
